@@ -43,7 +43,7 @@ func (c *Chain) syncSeatScript(p *ProposeCtx) {
 					continue
 				}
 				m, ok := byKey[k]
-				if !ok || (pass == 0 && c.Vals[m].WKey != 0) {
+				if !ok || c.Vals[m].Odd != 0 || (pass == 0 && c.Vals[m].WKey != 0) {
 					continue
 				}
 				if p.AddExit(m) {
@@ -67,6 +67,7 @@ func (c *Chain) syncSeatScript(p *ProposeCtx) {
 			c.TopUp(c.seatM, sp.MIN_DEPOSIT_AMOUNT)
 			c.Stats.Add("deposits_queued", 1)
 			c.Stats.Inc("sync_seat_member_withdrawn_then_topped_up")
+			c.Stats.Max("sync_seat_topup_queued_at_slot", int(p.Slot))
 			c.seatPhase = 2
 		}
 	}
